@@ -22,7 +22,7 @@ REQUIRED_BUCKETS = ['value:long-string', 'value:nested', 'value:reference', 'val
                     'value:repr-looks-like-reference', 'value:repr-unbalanced', 'value:repr-looks-like-string', 'value:complex', 'macro:literal', 'macro:nonliteral',
                     'name:module-qualified-needed', 'name:method', 'name:case-variant-scope', 'name:case-variant-configurable', 'name:case-variant-macro',
                     'width:tiny', 'width:indent0', 'width:default', 'imports:present', 'imports:from', 'imports:alias', 'perm:3+', 'roundtrip:done',
-                    'omitted:nonrepresentable', 'api:bind_parameter', 'api:text', 'registration:dynamic']
+                    'omitted:nonrepresentable', 'api:bind_parameter', 'api:text', 'registration:dynamic', 'history:registration-after-config_str']
 ORACLE_COUNTERS = ['oracle_evals', 'roundtrips', 'permutations_compared', 'markdown_checked']
 _S = {}
 HDR = re.compile(r'^# Parameters for (.+):$')
@@ -103,6 +103,9 @@ def iter_cases(ctx, rng, n):
   from vf.checks import c19
   dyn = c19.iter_cases(ctx, rng, n)
   for i in range(n):
+    if i % 16 == 5:
+      yield {'late_registration': rng.randrange(1 << 30), 'mll': rng.choice([80, 20]), 'scope': rng.choice(['', 'sc'])}
+      continue
     if i % 8 == 7:
       # "with or without dynamic registration": a dynamic-registration configuration on a freshly generated package (machinery of C19):
       # config_str must re-parse to the same deliveries and reproduce the text
@@ -244,6 +247,8 @@ def apply_items(gin, case, order, use_text, cache):
 def run_case(ctx, case):
   import gin
   from gin import config as gc
+  if 'late_registration' in case:
+    return run_late_registration(ctx, case)
   if 'dynamic' in case:
     from vf.checks import c19
     if 'tree' not in c19._S:
@@ -415,6 +420,42 @@ def run_case(ctx, case):
     ctx.check(False, key, 'serialising again after the round trip differs:\n%s\n---\n%s' % (s[:800], s2[:800]))
   else:
     ctx.count('oracle_evals')
+
+
+def run_late_registration(ctx, case):
+  """config_str() is taken, then another configurable with the same base name is registered: the next config_str() must still parse."""
+  import gin
+  from gin import config as gc
+  gin.clear_config()
+  ctx.bucket('history:registration-after-config_str')
+  name = 'c6late%d_%s' % (case['late_registration'] % 100000, ctx.uid)
+
+  def mk(tag):
+    def fn(x=0):
+      return (tag, x)
+    fn.__name__ = name
+    return fn
+  f1 = gin.external_configurable(mk('one'), name, module='c6x.vision.models')
+  pre = case['scope'] + '/' if case['scope'] else ''
+  gin.parse_config('%s%s.x = 64\nc6c.x = @%s()\n' % (pre, name, name))
+  s1 = gin.config_str(case['mll'])
+  f2 = gin.external_configurable(mk('two'), name, module='c6x.audio.models')     # the short name is ambiguous from now on
+  s2 = gin.config_str(case['mll'])
+  for label, text in (('before', s1), ('after', s2)):
+    if label == 'before':
+      continue  # the earlier text legitimately used the then-unique short name
+    store = snap.store_nonempty(gc)
+    gin.clear_config()
+    try:
+      gin.parse_config(text)
+      ctx.check(snap.store_nonempty(gc) == store, 'roundtrip-differs', 'config_str taken after a same-named configurable was registered restores %r, expected %r' %
+                (snap.store_nonempty(gc), store))
+      ctx.check(gin.config_str(case['mll']) == text, 'reserialisation-differs', 'not idempotent after late registration')
+    except Exception as e:  # pylint: disable=broad-except
+      ctx.check(False, 'config-str-does-not-parse', 'config_str() taken after registering another %r does not parse: %s: %s\n%s' % (name, type(e).__name__, str(e)[:200], text))
+  ctx.count('roundtrips')
+  ctx.fp('late-registration', case['mll'], case['scope'])
+  gin.clear_config()
 
 
 def finish(ctx):
